@@ -24,17 +24,17 @@ EXTENDS Integers, Sequences, FiniteSets, TLC
 CONSTANTS MaxLen, BackwardReads, ElementsMode
 
 \* ---- the job pool (names are the keys of drivers/session_driver.py:JOBS) -------------------
-Jobs == {"tight", "loose", "nh3A", "cisC", "uhfD", "sp2E", "radA", "h2oA", "mdF", "dispG", "dispH", "farI", "uhfJ"}
+Jobs == {"tight", "loose", "nh3A", "cisC", "uhfD", "sp2E", "radA", "h2oA", "mdF", "dispG", "dispH", "farI", "uhfJ", "uhfsK", "mdL1", "mdL2"}
 Dict(j)   == CASE j \in {"tight", "nh3A", "radA", "h2oA"} -> "A" [] j = "loose" -> "B" [] j = "cisC" -> "C"
-               [] j = "uhfD" -> "D" [] j = "sp2E" -> "E" [] j = "mdF" -> "F" [] j = "dispG" -> "G" [] j = "dispH" -> "H" [] j = "farI" -> "I" [] j = "uhfJ" -> "J"
-Elems(j)  == CASE j \in {"tight", "loose", "sp2E", "h2oA", "mdF", "dispG", "farI"} -> {1, 8} [] j \in {"nh3A", "radA"} -> {1, 7}
+               [] j = "uhfD" -> "D" [] j = "sp2E" -> "E" [] j = "mdF" -> "F" [] j = "dispG" -> "G" [] j = "dispH" -> "H" [] j = "farI" -> "I" [] j = "uhfJ" -> "J" [] j = "uhfsK" -> "K" [] j \in {"mdL1", "mdL2"} -> "L"
+Elems(j)  == CASE j \in {"tight", "loose", "sp2E", "h2oA", "mdF", "dispG", "farI", "uhfsK", "mdL1", "mdL2"} -> {1, 8} [] j \in {"nh3A", "radA"} -> {1, 7}
                [] j \in {"cisC", "dispH"} -> {1, 6, 8} [] j \in {"uhfD", "uhfJ"} -> {1, 6}
 Method(j) == IF j = "loose" THEN "PM3" ELSE "AM1"
 EpsExp(j) == CASE j = "tight" -> 10 [] j = "loose" -> 3 [] j = "cisC" -> 7 [] OTHER -> 8
 Backward(j) == CASE j \in {"tight", "loose"} -> 1 [] j = "sp2E" -> 2 [] OTHER -> 0
 Fails(j)  == j \in {"radA", "uhfJ"}   \* radA: odd-electron RHF, raises inside Molecule.__init__, after `elements` was stored
 FailsLate(j) == j = "uhfJ"            \* UHF + Pulay: refused inside SCF.forward, after the SCF class attributes were set
-Dicts == {"A", "B", "C", "D", "E", "F", "G", "H", "I", "J"}
+Dicts == {"A", "B", "C", "D", "E", "F", "G", "H", "I", "J", "K", "L"}
 
 VARIABLES hist, scfcls, delems, pending, eff, beff
 vars == <<hist, scfcls, delems, pending, eff, beff>>
